@@ -271,6 +271,51 @@ static void run_table(Json& js, vh::Rng& rng, int reps) {
                     }
                 }
             }
+            // scalars among themselves (cmplx_t with cmplx_t / real / int on either side, compound forms): logged as one-element
+            // arrays so that the same clauses judge them
+            if (n == 1) {
+                for (char op : OPS) {
+                    const bool dv = op == '/';
+                    const AV zC = gen(rng, true, 1, dv), wC = dv ? gen_div(rng, true, 1) : gen(rng, true, 1, false);
+                    const AV wR = dv ? gen_div(rng, false, 1) : gen(rng, false, 1, false);
+                    const AV lC = dv ? gen_div(rng, true, 1) : zC;                 // divisor when the complex value stands on the right
+                    const AV s8 = gen(rng, false, 1, dv);
+                    const cmplx_t z((double)zC.re[0], (double)zC.im[0]), w((double)wC.re[0], (double)wC.im[0]), lz((double)lC.re[0], (double)lC.im[0]);
+                    const double wr = (double)wR.re[0], lr = (double)s8.re[0];
+                    const int wi = (int)wR.re[0], li = (int)s8.re[0];
+                    auto one = [](cmplx_t v) { AV r; r.cplx = true; r.re = {vh::as_int(v.re)}; r.im = {vh::as_int(v.im)}; return r; };
+                    auto sc = [&](char o, auto a, auto b) { return o == '+' ? cmplx_t(a + b) : o == '-' ? cmplx_t(a - b) : o == '*' ? cmplx_t(a * b) : cmplx_t(a / b); };
+                    ev_bin(js, "AS", op, zC, wC, "cmplx", [&](AV& r, AV& a2, AV&) { r = one(sc(op, z, w)); a2 = zC; });
+                    ev_bin(js, "AS", op, zC, wR, "real", [&](AV& r, AV& a2, AV&) { r = one(sc(op, z, wr)); a2 = zC; });
+                    ev_bin(js, "AS", op, zC, wR, "int", [&](AV& r, AV& a2, AV&) { r = one(sc(op, z, wi)); a2 = zC; });
+                    ev_bin(js, "SA", op, lC, s8, "real", [&](AV& r, AV& a2, AV&) { r = one(sc(op, lr, lz)); a2 = lC; });
+                    ev_bin(js, "SA", op, lC, s8, "int", [&](AV& r, AV& a2, AV&) { r = one(sc(op, li, lz)); a2 = lC; });
+                    ev_bin(js, "CAS", op, zC, wC, "cmplx", [&](AV& r, AV& a2, AV&) { cmplx_t v = z; if (op == '+') v += w; else if (op == '-') v -= w; else if (op == '*') v *= w; else v /= w; r = one(v); a2 = r; });
+                    ev_bin(js, "CAS", op, zC, wR, "real", [&](AV& r, AV& a2, AV&) { cmplx_t v = z; if (op == '+') v += wr; else if (op == '-') v -= wr; else if (op == '*') v *= wr; else v /= wr; r = one(v); a2 = r; });
+                }
+            }
+            // signed zeros: unary minus flips the sign bit of every component, also of zeros; real element-wise results carry the
+            // sign IEEE arithmetic gives them; complex sums and differences are componentwise
+            {
+                static const double SZ[] = {0.0, -0.0, 1.0, -1.0};
+                bool ok = true;
+                for (double a : SZ) {
+                    for (double b : SZ) {
+                        const arr_real x = {a, b}, y = {b, a};
+                        const arr_cmplx u = {cmplx_t(a, b), cmplx_t(b, a)}, v = {cmplx_t(b, b), cmplx_t(a, -a)};
+                        auto same = [](double p, double q) { return p == q && std::signbit(p) == std::signbit(q); };
+                        const arr_real nx = -x, sx = x + y, dx = x - y, mx = x * y;
+                        const arr_cmplx nu = -u, su = u + v, du = u - v;
+                        for (int i = 0; i < 2; ++i) {
+                            ok = ok && same(nx[i], -x[i]) && same(sx[i], x[i] + y[i]) && same(dx[i], x[i] - y[i]) && same(mx[i], x[i] * y[i]);
+                            ok = ok && same(nu[i].re, -u[i].re) && same(nu[i].im, -u[i].im);
+                            ok = ok && same(su[i].re, u[i].re + v[i].re) && same(su[i].im, u[i].im + v[i].im);
+                            ok = ok && same(du[i].re, u[i].re - v[i].re) && same(du[i].im, u[i].im - v[i].im);
+                        }
+                    }
+                }
+                js.begin("Resid").str("clause", "C03.signed-zero").num("err_milli", ok ? 0 : 1000000).end();
+            }
             // unary, concatenation, selection
             AV aR = gen(rng, false, n, false), aC = gen(rng, true, n, false);
             for (int c = 0; c < 2; ++c) {
